@@ -743,20 +743,13 @@ def run_kinds(ctx, idx, seed, quick):
     with _LOCK:
         model = ctx.model("trace")
     if quick:
-        C45_kinds.check_kinds(ctx, cybuild, model, seed, "_%d" % idx, 36, FX_RET, FX_WRAP, _LOCK, n_mid=3, n_gen=2)
+        C45_kinds.check_kinds(ctx, cybuild, model, seed, "_%d" % idx, 15, FX_RET, FX_WRAP, _LOCK, n_mid=3, n_gen=2)
     else:
         C45_kinds.check_kinds(ctx, cybuild, model, seed, "_%d" % idx, 250, FX_RET, FX_WRAP, _LOCK, n_mid=14, n_gen=6)
 
 
 def run(ctx):
     quick = ctx.tier == "quick"
-    if os.environ.get("C45_MEASURE_OLD") == "1":
-        progs = make_programs(ctx, 11, 3)
-        chunks = [progs[i::2] for i in range(2)]
-        import concurrent.futures as cf
-        with cf.ThreadPoolExecutor(max_workers=4) as ex:
-            list(ex.map(lambda kc: check_programs(ctx, kc[1], True, "_%d" % kc[0]), enumerate(chunks)))
-        return
     progs = make_programs(ctx, 1 if quick else 110, 1 if quick else 30)
     nchunk = 1 if quick else 8
     chunks = [progs[i::nchunk] for i in range(nchunk)]
